@@ -220,7 +220,7 @@ func (g *Gen) instrUnOp(f *Frame, i *ssa.UnOp) {
 	case token.MUL: // load
 		el := ptrElem(i.X.Type())
 		if l, ok := f.locs[i.X]; ok {
-			g.nextBound = g.boundOf(f.st, l.comp)
+			g.nextBound = g.loadBound(f.st, l)
 			g.setVal(f, i, g.loadLoc(f, l))
 			return
 		}
@@ -239,7 +239,7 @@ func (g *Gen) instrUnOp(f *Frame, i *ssa.UnOp) {
 			return
 		}
 		l := g.cellLoc(x.S, el)
-		g.nextBound = g.boundOf(f.st, l.comp)
+		g.nextBound = g.loadBound(f.st, l)
 		g.setVal(f, i, g.read(f.st, l))
 		if ci, ok := g.cellFn[g.get(f.st, l.comp)+"|"+x.S]; ok {
 			if g.closures == nil {
